@@ -43,3 +43,45 @@ Theorem c02_reads_are_consecutive : forall psize total bufs r,
     rd_pos r + fold_right (fun x acc => snd x + acc) 0 (fst (read_all psize total r bufs)).
 Proof. exact read_all_chained. Qed.
 Print Assumptions c02_reads_are_consecutive.
+
+(* Reading n bytes from wherever the reader stands, in buffers of at most cap bytes - what io.CopyN under
+   http.ServeContent (cap = 32 KiB) and io.ReadFull under the FUSE handle (cap = n) do -, for every
+   geometry, range, position, n and cap: the ranges returned are consecutive from offset + position, add
+   up to min(n, bytes of the range left, the range being cut at the torrent's end), and the position has
+   advanced by exactly that ([left] and [rsum] are defined in Proof/Reader.v: bytes left, sum of counts). *)
+Theorem c02_read_n_bytes : forall cap psize total fuel r n,
+  0 < cap -> rd_wf psize total r -> rd_closed r = false -> 0 <= n -> (Z.to_nat n <= fuel)%nat ->
+  chained (rd_offset r + rd_pos r) (fst (read_n fuel cap psize total r n)) /\
+  rsum (fst (read_n fuel cap psize total r n)) = Z.min n (left total r) /\
+  rd_pos (snd (read_n fuel cap psize total r n)) = rd_pos r + Z.min n (left total r) /\
+  rd_offset (snd (read_n fuel cap psize total r n)) = rd_offset r /\
+  rd_length (snd (read_n fuel cap psize total r n)) = rd_length r.
+Proof. exact read_n_explicit. Qed.
+Print Assumptions c02_read_n_bytes.
+
+(* HTTP Range requests (net/http's ServeContent is specified by [http_range], compared with the real
+   handler's status, Content-Range and body on every run): for every file lying inside the torrent and
+   every Range header of the three forms that is not refused with 416, the reader opened on the file,
+   sought to the first byte of the range and read for the range's length returns consecutive ranges of the
+   torrent that start at the file's offset + first byte, add up to exactly the length announced, and lie
+   inside the file: the body is bytes [first, first+length) of that file and nothing else. *)
+Theorem c02_http_range : forall psize total off flen s st a cnt fuel,
+  0 < psize -> 0 < total -> 0 <= off -> 0 <= flen -> off + flen <= total ->
+  rspec_ok s = true -> http_range flen s = (st, a, cnt) -> st <> 416 -> (Z.to_nat cnt <= fuel)%nat ->
+  let r := fst (rd_seek (rd_new off flen) a SeekStart) in
+  let l := fst (read_n fuel 32768 psize total r cnt) in
+  chained (off + a) l /\ rsum l = cnt /\ off <= off + a /\ off + a + cnt <= off + flen.
+Proof. exact http_range_served. Qed.
+Print Assumptions c02_http_range.
+
+(* FUSE reads: whatever other reads have moved the handle's reader to (each read seeks first, under the
+   handle's semaphore), a read of n bytes at offset o of a file returns consecutive ranges from the file's
+   offset + o adding up to min(n, bytes of the file after o) - short only at the end of the file. *)
+Theorem c02_fuse_read : forall psize total off flen o n fuel,
+  0 < psize -> 0 < total -> 0 <= off -> 0 <= flen -> off + flen <= total ->
+  0 <= o -> 0 < n -> (Z.to_nat n <= fuel)%nat ->
+  let r := fst (rd_seek (rd_new off flen) o SeekStart) in
+  let l := fst (read_n fuel n psize total r n) in
+  chained (off + o) l /\ rsum l = fuse_read flen o n /\ (0 < rsum l -> off + o + rsum l <= off + flen).
+Proof. exact fuse_read_served. Qed.
+Print Assumptions c02_fuse_read.
